@@ -125,6 +125,24 @@ def rule(ctx, rule_id, which, what):
     fns = []
     for w in which:
         fns += scoped_functions(pkg, w)
+    # a private helper reached only from the methods that are outside the scope (identity, construction, the grain-group lookup ..) is
+    # a part of those methods that was extracted: outside the scope as well (closure over the calls inside the class)
+    for ci in pkg.classes.values():
+        mine = {name.split(".")[-1]: fn for file, name, fn in fns if file == ci.file and name.startswith(ci.name + ".")}
+        if not mine:
+            continue
+        callers = {}
+        for mname, m in ci.methods.items():
+            for c in ast.walk(m):
+                if isinstance(c, ast.Call) and isinstance(c.func, ast.Attribute) and isinstance(c.func.value, ast.Name) and c.func.value.id in ("self", "cls"):
+                    callers.setdefault(c.func.attr, set()).add(mname.split(".")[0])
+        outside = {m.split(".")[0] for m in ci.methods if m.split(".")[0] in SKIP_METHODS and ci.file != "naunet/templateloader.py"}
+        for _ in range(4):
+            more = {h for h in mine if h.startswith("_") and not h.startswith("__") and h not in outside and callers.get(h) and callers[h] <= outside}
+            if not more:
+                break
+            outside |= more
+        fns = [(file, name, fn) for file, name, fn in fns if not (file == ci.file and name.startswith(ci.name + ".") and name.split(".")[-1] in outside and name.split(".")[-1] not in SKIP_METHODS)]
     # helpers that are HANDED a reactant / product list (`self._net(rspecidx, pspecidx)`, `_pairs(reac.reactants)`): the parameter
     # that receives it is such a list inside the helper -- propagated along the calls between the scanned functions (fixpoint)
     by_name = {}
